@@ -440,7 +440,15 @@ class RequestHandler(BaseProtocol, Generic[_Request]):
         if handler_cancellation and self._task_handler is not None:
             self._task_handler.cancel()
 
-        self._task_handler = None
+        # A handler that keeps running after its client went away
+        # (handler_cancellation off) is still a request being handled:
+        # keep its task so that shutdown() can wait for it and cancel it.
+        if (
+            handler_cancellation
+            or self._task_handler is None
+            or self._task_handler.done()
+        ):
+            self._task_handler = None
 
         if self._payload_parser is not None:
             self._payload_parser.feed_eof()
